@@ -69,8 +69,12 @@ CLAIMED.update({
     "C05": dict(
         category="proof", design_ref="DESIGN.md §5 C05",
         text="'SUCCESS => result stored, FAILED => exception stored' is proved as a step invariant between every two effects of set_invocation_result / "
-             "set_invocation_exception and at all their exits (normal, refused, unknown id, storage fault), i.e. exactly the states a concurrent reader can see.",
-        technique="contract-based deductive verification: step invariant between every two effects of the real glue functions",
+             "set_invocation_exception and at all their exits (normal, refused, unknown id, storage fault), i.e. exactly the states a concurrent reader can see. "
+             "Leaf contracts: the in-memory outcome tables are written one entry at a time and storing one kind of outcome never touches the other (SQLite: one "
+             "committed upsert into the own table, nothing else); the client data store writes on every call and addresses the whole content (C15 functions); "
+             "get_final_result never yields a value for a non-final observed status, returns the stored result of THIS invocation on SUCCESS and raises its "
+             "stored exception on FAILED. The value round trip through third-party serializers is C15's (bounded there).",
+        technique="contract-based deductive verification: step invariant between every two effects of the real glue functions + leaf and reader contracts",
     ),
     "C06": dict(
         category="other", design_ref="DESIGN.md §5 C06",
